@@ -17,8 +17,12 @@ package main
 // Case line:   h <vals> [<schema>] <tx>|<tx>|...
 //
 //	<vals>    list of byte strings read back through ReadIndex.Read / SetReadIndex.Read after every tx
-//	<schema>  eleven names: name sym+key+chk, alias sym+key+chk, roles sym+key+chk, tag key+chk
-//	          (absent: every field is known by one name: name, alias, roles, tag)
+//	<schema>  <names>[;<base path>;<registration>[;<spare>]]
+//	          names: eleven names: name sym+key+chk, alias sym+key+chk, roles sym+key+chk, tag key+chk
+//	          base path: StoreDefinition.BasePath of the parent store (default: u), any number of elements
+//	          registration: the indexes registered on the parent store, in registration order, letters n a r
+//	          ("-": none; default nar); spare: extra capacity of the BasePath slice handed to NewBaseStore
+//	          (absent schema: every field is known by one name: name, alias, roles, tag; base path u; nar)
 //	<tx>      <op>,<op>,...                  one Db.Update; the first failing op aborts (rolls back) the tx
 //	<op>      c:<id>:<name>:<alias>:<roles>               things.Create
 //	          C:<id>:<name>:<alias>:<roles>:<tag>         ext.Create
@@ -40,6 +44,7 @@ package main
 import (
 	"bufio"
 	"fmt"
+	"strconv"
 	"strings"
 
 	"github.com/openziti/foundation/v2/errorz"
@@ -59,7 +64,26 @@ type c03Names struct{ sym, key, chk string }
 type c03Schema struct {
 	name, alias, roles c03Names
 	tagKey, tagChk     string
+	basePath           []string // nil: ["u"]
+	order              string   // registered indexes in registration order ("" = "nar", "-" = none)
+	spare              int      // spare capacity of the BasePath slice
 }
+
+func (s c03Schema) base() []string {
+	if s.basePath == nil {
+		return []string{"u"}
+	}
+	return s.basePath
+}
+
+func (s c03Schema) regOrder() string {
+	if s.order == "" {
+		return "nar"
+	}
+	return s.order
+}
+
+func (s c03Schema) reg(c byte) bool { return strings.IndexByte(s.regOrder(), c) >= 0 }
 
 var c03Plain = c03Schema{
 	name: c03Names{"name", "name", "name"}, alias: c03Names{"alias", "alias", "alias"},
@@ -87,17 +111,39 @@ var c03Schemas = []c03Schema{
 }
 
 func (s c03Schema) wire() string {
-	return csList([]string{s.name.sym, s.name.key, s.name.chk, s.alias.sym, s.alias.key, s.alias.chk,
+	names := csList([]string{s.name.sym, s.name.key, s.name.chk, s.alias.sym, s.alias.key, s.alias.chk,
 		s.roles.sym, s.roles.key, s.roles.chk, s.tagKey, s.tagChk})
+	if s.basePath == nil && s.order == "" && s.spare == 0 {
+		return names
+	}
+	return fmt.Sprintf("%s;%s;%s;%d", names, csList(s.base()), s.regOrder(), s.spare)
 }
 
 func c03ParseSchema(w string) (c03Schema, bool) {
-	f := csParseList(w)
+	parts := strings.Split(w, ";")
+	f := csParseList(parts[0])
 	if len(f) != 11 {
 		return c03Schema{}, false
 	}
-	return c03Schema{name: c03Names{f[0], f[1], f[2]}, alias: c03Names{f[3], f[4], f[5]},
-		roles: c03Names{f[6], f[7], f[8]}, tagKey: f[9], tagChk: f[10]}, true
+	sch := c03Schema{name: c03Names{f[0], f[1], f[2]}, alias: c03Names{f[3], f[4], f[5]},
+		roles: c03Names{f[6], f[7], f[8]}, tagKey: f[9], tagChk: f[10]}
+	if len(parts) > 1 {
+		sch.basePath = csParseList(parts[1])
+		if sch.basePath == nil {
+			sch.basePath = []string{}
+		}
+	}
+	if len(parts) > 2 {
+		sch.order = parts[2]
+	}
+	if len(parts) > 3 {
+		n, err := strconv.Atoi(parts[3])
+		if err != nil || n < 0 || n > 16 {
+			return c03Schema{}, false
+		}
+		sch.spare = n
+	}
+	return sch, true
 }
 
 // checkerNames: the names a checker string puts into the MapFieldChecker
@@ -231,10 +277,13 @@ func c03NotFound(id string) error { return boltz.NewNotFoundError("thing", "id",
 
 func c03Wire(sch c03Schema) *c03Stores {
 	s := &c03Stores{sch: sch}
+	// the BasePath slice exactly as long as the path (a literal), or with spare capacity
+	basePath := make([]string, len(sch.base()), len(sch.base())+sch.spare)
+	copy(basePath, sch.base())
 	s.things = boltz.NewBaseStore(boltz.StoreDefinition[*c03Thing]{
 		EntityType:      "things",
 		EntityStrategy:  c03Strategy{sch: sch},
-		BasePath:        []string{"u"},
+		BasePath:        basePath,
 		EntityNotFoundF: c03NotFound,
 	})
 	s.things.InitImpl(s.things)
@@ -270,24 +319,38 @@ func c03Wire(sch c03Schema) *c03Stores {
 
 	s.things.AddIdSymbol("id", ast.NodeTypeString)
 	symName := s.things.AddSymbolWithKey(sch.name.sym, ast.NodeTypeString, sch.name.key)
-	s.idxName = s.things.AddUniqueIndex(symName)
 	symAlias := s.things.AddSymbolWithKey(sch.alias.sym, ast.NodeTypeString, sch.alias.key)
-	s.idxAlias = s.things.AddNullableUniqueIndex(symAlias)
 	if sch.roles.sym != sch.roles.key {
 		panic("the exported API has no set symbol with a separate key")
 	}
 	symRoles := s.things.AddSetSymbol(sch.roles.sym, ast.NodeTypeString)
-	s.idxRoles = s.things.AddSetIndex(symRoles)
-	s.idxRoles.AddListener(func(_ boltz.MutateContext, rowId []byte, old []boltz.FieldTypeAndValue, new []boltz.FieldTypeAndValue, _ errorz.ErrorHolder) {
-		f := func(xs []boltz.FieldTypeAndValue) string {
-			var vs []string
-			for _, x := range xs {
-				vs = append(vs, string(x.Value))
+	// the indexes, in the schema's registration order
+	for _, c := range sch.regOrder() {
+		switch c {
+		case 'n':
+			if s.idxName == nil {
+				s.idxName = s.things.AddUniqueIndex(symName)
 			}
-			return csList(vs)
+		case 'a':
+			if s.idxAlias == nil {
+				s.idxAlias = s.things.AddNullableUniqueIndex(symAlias)
+			}
+		case 'r':
+			if s.idxRoles == nil {
+				s.idxRoles = s.things.AddSetIndex(symRoles)
+				s.idxRoles.AddListener(func(_ boltz.MutateContext, rowId []byte, old []boltz.FieldTypeAndValue, new []boltz.FieldTypeAndValue, _ errorz.ErrorHolder) {
+					f := func(xs []boltz.FieldTypeAndValue) string {
+						var vs []string
+						for _, x := range xs {
+							vs = append(vs, string(x.Value))
+						}
+						return csList(vs)
+					}
+					s.log = append(s.log, toWire(string(rowId))+":"+f(old)+":"+f(new))
+				})
+			}
 		}
-		s.log = append(s.log, toWire(string(rowId))+":"+f(old)+":"+f(new))
-	})
+	}
 	s.things.GrantSymbols(s.ext)
 	s.ext.AddSymbol(sch.tagKey, ast.NodeTypeString)
 	return s
@@ -350,15 +413,25 @@ func (s *c03Stores) apply(ctx boltz.MutateContext, op c03Op) error {
 
 func (s *c03Stores) reads(tx *bbolt.Tx, vals []string) string {
 	var b strings.Builder
+	read := func(idx boltz.ReadIndex, v string) []byte {
+		if idx == nil {
+			return nil // not registered
+		}
+		return idx.Read(tx, []byte(v))
+	}
 	for _, v := range vals {
-		fmt.Fprintf(&b, "n:%s=%s;", toWire(v), csHexOrNil(s.idxName.Read(tx, []byte(v))))
-		fmt.Fprintf(&b, "a:%s=%s;", toWire(v), csHexOrNil(s.idxAlias.Read(tx, []byte(v))))
+		fmt.Fprintf(&b, "n:%s=%s;", toWire(v), csHexOrNil(read(s.idxName, v)))
+		fmt.Fprintf(&b, "a:%s=%s;", toWire(v), csHexOrNil(read(s.idxAlias, v)))
 		var ids []string
-		s.idxRoles.Read(tx, []byte(v), func(val []byte) { ids = append(ids, string(val)) })
+		if s.idxRoles != nil {
+			s.idxRoles.Read(tx, []byte(v), func(val []byte) { ids = append(ids, string(val)) })
+		}
 		fmt.Fprintf(&b, "r:%s=%s;", toWire(v), csList(csSortedCopy(ids)))
 	}
 	var keys []string
-	s.idxRoles.ReadKeys(tx, func(val []byte) { keys = append(keys, string(val)) })
+	if s.idxRoles != nil {
+		s.idxRoles.ReadKeys(tx, func(val []byte) { keys = append(keys, string(val)) })
+	}
 	fmt.Fprintf(&b, "k=%s", csList(csSortedCopy(keys)))
 	return b.String()
 }
@@ -497,14 +570,19 @@ func (sh *c03Shadow) taken(id, name string, alias *string) bool {
 		if oid == id {
 			continue
 		}
-		if e.Name == name {
+		if sh.sch.reg('n') && e.Name == name {
 			return true
 		}
-		if alias != nil && *alias != "" && e.Alias != nil && *e.Alias == *alias {
+		if sh.sch.reg('a') && alias != nil && *alias != "" && e.Alias != nil && *e.Alias == *alias {
 			return true
 		}
 	}
 	return false
+}
+
+// bad: would a registered index refuse these values by themselves
+func (sh *c03Shadow) bad(name string, roles []string) bool {
+	return sh.sch.reg('n') && name == "" || sh.sch.reg('r') && !c03RolesOk(roles)
 }
 
 func c03RolesOk(rs []string) bool {
@@ -520,7 +598,7 @@ func c03RolesOk(rs []string) bool {
 func (sh *c03Shadow) apply(op c03Op) bool {
 	switch op.kind {
 	case 'c', 'C':
-		if op.id == "" || op.name == "" || sh.taken(op.id, op.name, op.alias) || !c03RolesOk(op.roles) {
+		if op.id == "" || sh.bad(op.name, op.roles) || sh.taken(op.id, op.name, op.alias) {
 			return false
 		}
 		if op.kind == 'c' && sh.ents[op.id] != nil || op.kind == 'C' && sh.ext[op.id] {
@@ -546,7 +624,7 @@ func (sh *c03Shadow) apply(op c03Op) bool {
 		if sh.sch.selects(op.chk, sh.sch.roles.chk) {
 			e.Roles = op.roles
 		}
-		if e.Name == "" || sh.taken(op.id, e.Name, e.Alias) || !c03RolesOk(e.Roles) {
+		if sh.bad(e.Name, e.Roles) || sh.taken(op.id, e.Name, e.Alias) {
 			return false
 		}
 		sh.ents[op.id] = &e
@@ -705,6 +783,35 @@ func c03GenHistory(r *rng, nTx int, sch c03Schema, layered bool) string {
 	return strings.Join(txs, "|")
 }
 
+// registration strings: all three indexes in every order, then proper subsets
+var c03Orders = []string{"nra", "anr", "arn", "rna", "ran"}
+var c03Subsets = []string{"na", "an", "nr", "rn", "ar", "ra", "n", "a", "r", "-"}
+var c03PathElems = []string{"u", "v", "w", "x1", "y"}
+
+// c03GenSchema: a names variant, a base path of 1..5 elements (sometimes handed over with spare
+// capacity), the registered indexes and their order
+func c03GenSchema(r *rng) c03Schema {
+	sch := c03Schemas[r.intn(len(c03Schemas))]
+	n := 1 + r.intn(5)
+	sch.basePath = append([]string{}, c03PathElems[:n]...)
+	if r.chance(1, 6) {
+		// the same element twice in the path
+		sch.basePath[n-1] = sch.basePath[0]
+	}
+	if r.chance(1, 4) {
+		sch.spare = 1 + r.intn(3)
+	}
+	switch k := r.intn(8); {
+	case k < 4:
+		sch.order = "nar"
+	case k < 6:
+		sch.order = pick(r, c03Orders)
+	default:
+		sch.order = pick(r, c03Subsets)
+	}
+	return sch
+}
+
 var c03ReadVals = csList([]string{"", "x", "y", "zq", "z", "r", "sq", "s", "a"})
 
 func c03Gen(tier string, seed uint64, out *bufio.Writer) {
@@ -723,7 +830,7 @@ func c03Gen(tier string, seed uint64, out *bufio.Writer) {
 			fmt.Fprintf(out, "h %s %s\n", c03ReadVals, c03GenHistory(r, nTx, c03Plain, false))
 		} else {
 			// parent + child store under a schema variant
-			sch := c03Schemas[r.intn(len(c03Schemas))]
+			sch := c03GenSchema(r)
 			fmt.Fprintf(out, "h %s %s %s\n", c03ReadVals, sch.wire(), c03GenHistory(r, nTx, sch, true))
 		}
 	}
@@ -766,7 +873,8 @@ func c03GenExhaustive(out *bufio.Writer) {
 }
 
 // all histories of length <= 4 over 2 ids with a 16-letter alphabet of parent / child operations, under
-// the schema in which symbol name, key and caller-side name all differ
+// the schema in which symbol name, key and caller-side name all differ, with a three-element base path
+// and the indexes registered in the order roles, alias, name
 func c03GenExhaustiveLayered(out *bufio.Writer) {
 	var alphabet []string
 	for _, id := range []string{"a", "b"} {
@@ -780,5 +888,7 @@ func c03GenExhaustiveLayered(out *bufio.Writer) {
 			c03FmtOp(c03Op{kind: 'd', id: id}),
 			c03FmtOp(c03Op{kind: 'D', id: id}))
 	}
-	c03Enumerate(out, "h "+csList([]string{"x", "y", "r", "s"})+" "+c03Schemas[3].wire(), alphabet, 4)
+	sch := c03Schemas[3]
+	sch.basePath, sch.order = []string{"u", "v", "w"}, "ran"
+	c03Enumerate(out, "h "+csList([]string{"x", "y", "r", "s"})+" "+sch.wire(), alphabet, 4)
 }
